@@ -22,6 +22,15 @@ spec/Migration/MigrationStore.tla    the store: Replace / Get (pending only) / h
    property's clauses are evaluated directly on the real results, and the real state is saved and
    loaded through the memory store (every edge) and the SQLite store over a real wallet database
    (every k-th edge), plus states from the crate's own generators.
+3. V (code -> spec), the store INSIDE a wallet: spec/Migration/WalletStore.tla (the persisted migrations of
+   two accounts, the note reservations their never-broadcast rows hold, the chain the wallet has scanned;
+   Persist / UpdateTx / StoreProved / TakeForBroadcast / Cancel / Rewind(settled height) / Scan / Block / Lock;
+   RollbackLaw, HistoryLaw, OneNonTerminal, ReservationsLaw, OracleLaw) is model-checked in the small, and
+   c18_store_driver runs seeded random histories of these events against the real PoolMigrations store of a
+   real SQLite wallet on the harness chain (fabricated blocks mine the migrations' transaction ids; rewinds by
+   truncate_to_height / truncate_to_chain_state / rewind_to_chain_state, with and without a different
+   continuation); after EVERY event every record of both accounts is loaded back and logged, and
+   Trace_WalletStore.tla validates every line.
 """
 import json
 import os
@@ -106,10 +115,116 @@ def add_counts(total, res):
         total[k] += res[k]
 
 
+# ------------------------------------------------------------------------------------------------
+# part 3: the store inside a wallet database (trace validation)
+
+STORE_MC = [("MC_WalletStore_history.cfg", True), ("MC_WalletStore_accounts.cfg", True), ("MC_WalletStore.cfg", False)]
+STORE_ACTIONS = ["DoFresh", "DoMove", "DoUpdate", "DoUpdateErr", "DoProve", "DoTake", "DoCancel", "DoLock", "DoBlock",
+                 "DoScan", "DoRewind"]
+
+
+def store_model(ctx, d):
+    """TLC on WalletStore.tla alone: every order of store events, scans and rewinds in the small; the laws
+    (RollbackLaw, RefusedRewindLaw, HistoryLaw, ReleaseLaw, ScanLaw as action properties; OneNonTerminal,
+    RidsUnique, ReservationsLaw, MinedBacked as invariants)."""
+    for cfg, in_quick in STORE_MC:
+        if ctx.quick() and not in_quick:
+            continue
+        r = lib.tlc(ctx, d, "MC_WalletStore", cfg, workers=8, timeout=1200, coverage=not ctx.quick())
+        lib.account_tlc(ctx, r)
+        if not ctx.quick():
+            lib.require_coverage(r, STORE_ACTIONS + (["DoRewindRefused"] if "history" in cfg else []))
+        elif r.distinct < 20000:
+            raise lib.ToolError("vacuity: %s explored only %d states" % (cfg, r.distinct))
+
+
+def store_trace(ctx, bindir, path, histories, events, seed, real=0):
+    p = lib.run_bin(os.path.join(bindir, "c18_store_driver"), [path, str(histories), str(events), str(real)],
+                    env_extra={"VERIF_SEED": str(seed)}, timeout=3000)
+    return json.loads(p.stdout.strip().splitlines()[-1])
+
+
+def store_verdict(ctx, d, path, what):
+    """Validates the trace; on rejection reports the first line the specification does not allow."""
+    ok, n, detail, r = lib.tlc_validate(ctx, d, "Trace_WalletStore", "Trace_WalletStore.cfg", path, timeout=2400,
+                                        env_extra={"EXPLAIN": "0"})
+    if ok:
+        return True, n
+    with open(path) as f:
+        lines = f.readlines()
+    rec = json.loads(lines[n - 1]) if 0 < n <= len(lines) else {}
+    # the history the line belongs to, from its reset on (what led up to it)
+    k0 = max([i for i in range(n) if json.loads(lines[i]).get("a") == "reset"] or [0])
+    brief = [{k: v for k, v in json.loads(l).items() if k != "post"} for l in lines[k0:n]]
+    # the specification's state next to the logged one, when it is the projection that disagrees
+    explain = ""
+    try:
+        _, _, _, r2 = lib.tlc_validate(ctx, d, "Trace_WalletStore", "Trace_WalletStore.cfg", path, timeout=2400,
+                                       env_extra={"EXPLAIN": "1"})
+        for t in r2.tuples("EXPLAIN"):
+            if t.startswith("%d," % n):
+                explain = " | specification state: " + " ".join(t.split())[:1500]
+                break
+    except lib.ToolError:
+        pass
+    ev = {k: v for k, v in rec.items() if k != "post"}
+    what = dict(what, index=n, event=ev, history=brief[-40:], logged=rec.get("post"))
+    lib.violation(ctx, what,
+                  "the real wallet's pool-migration store left the specification at trace line %d: event %s; loaded back: %s%s"
+                  % (n, json.dumps(ev)[:700], json.dumps(rec.get("post"))[:1500], explain))
+    return False, n
+
+
+def store_part(ctx, bindir, d):
+    store_model(ctx, d)
+    # random histories over fabricated migrations + histories of a migration the engine itself plans, commits and
+    # proves (real Halo 2 proofs, the broadcast seam's success path, the prover's own reservations)
+    histories, events, real = (8, 80, 1) if ctx.quick() else (60, 150, 3)
+    path = ctx.path("store_trace.ndjson")
+    st = store_trace(ctx, bindir, path, histories, events, ctx.seed, real)
+    lib.log("[store] %d lines; events %s; rewinds ok %d (un-mined a row: %d, spared mined rows: %d, refused: %d conflict / %d wallet, "
+            "forked %d, below mined rows of policy-terminal history %d), Complete revoked %d; oracle answers %d (mined %d, "
+            "withheld above the scanned region %d, %s); releases %d; real migrations completed %d (proofs %d, handed out for "
+            "broadcast %d)"
+            % (st["lines"], st["events"], st["rewinds_ok"], st["rewinds_demoting"], st["rewinds_sparing"],
+               st["rewinds_refused_conflict"], st["rewinds_refused_wallet"], st["rewinds_forked"], st["rewinds_below_history"],
+               st["uncompleted"], st["oracle_answers"], st["oracle_mined_some"], st["oracle_withheld"], st["oracle_sat"],
+               st["releases"], st["real_completed"], st["real_proofs"], st["takes_ok"]))
+    ok, n = store_verdict(ctx, d, path, {"property": "C18", "kind": "store_trace", "seed": ctx.seed, "histories": histories,
+                                         "events": events, "real": real})
+    if not ok:
+        return
+    if st["panics"]:
+        raise lib.ToolError("store driver recorded %d panics that the trace accepted" % st["panics"])
+    # vacuity guards
+    f = 1 if ctx.quick() else 6
+    need = {"rewinds_demoting": 3 * f, "rewinds_sparing": 3 * f, "oracle_answers": 500 * f, "oracle_mined_some": 15 * f,
+            "releases": 1 * f, "rewinds_forked": 3 * f, "terminal_persists": 5 * f, "cancels_pending": 3 * f,
+            "rewinds_below_history": 1 * f, "uncompleted": 1, "real_completed": real, "real_proofs": 2 * real,
+            "takes_ok": 2 * real}
+    low = ["%s=%d<%d" % (k, st[k], v) for k, v in need.items() if st[k] < v]
+    for e in ("persist", "update_tx", "store_proved", "take", "cancel", "rewind", "scan", "block", "lock", "oracle"):
+        if st["events"].get(e, 0) < 3:
+            low.append("event %s" % e)
+    if st["accounts_used"] != 2:
+        low.append("accounts_used=%d" % st["accounts_used"])
+    if st["scan_errors"] * 3 > histories:
+        low.append("scan_errors=%d" % st["scan_errors"])
+    if low:
+        raise lib.ToolError("vacuity (store trace): %s" % ", ".join(low))
+    ctx.traces += n
+    ctx.extra["store_trace"] = st
+    with open(path) as fh:
+        for k, line in enumerate(fh):
+            e = json.loads(line)
+            if e["a"] == "rewind" and e["res"] == "ok" and k % 7 == 0:
+                ctx.add_sample({k2: v for k2, v in e.items() if k2 not in ("post", "err")}, cap=8)
+
+
 def run(ctx):
-    bindir = lib.cargo_build("h_wallet", ["c18_replay"])
+    bindir = lib.cargo_build("h_wallet", ["c18_replay", "c18_store_driver"])
     d = lib.stage_specs(ctx, AREA)
-    for m in ("MC_Migration.tla", "MigrationStore.tla"):
+    for m in ("MC_Migration.tla", "MigrationStore.tla", "MC_WalletStore.tla", "Trace_WalletStore.tla"):
         lib.sany(os.path.join(d, m))
 
     total = {"by_op": {}, "by_step": {}, "edges": 0, "sqlite_round_trips": 0, "arb_states": 0, "distinct_nontrivial": 0}
@@ -118,6 +233,11 @@ def run(ctx):
     rs = lib.tlc(ctx, d, "MigrationStore", "MigrationStore.cfg", workers=4, timeout=600)
     lib.require_coverage(rs, ["Replace", "Update", "Cancel", "Rollback"])
     lib.account_tlc(ctx, rs)
+
+    # (3) the store inside a wallet database: model + trace validation of the real SQLite store
+    store_part(ctx, bindir, d)
+    if ctx.violations:
+        return
 
     # (1)+(2a) breadth first over two transactions: invariants on the whole graph, and every edge
     # leaving a state at most `level` deep replayed on the real code
@@ -199,8 +319,17 @@ def run(ctx):
             "(on a Proved / Broadcast / Signed row)",
             "Complete is revocable by a rollback that un-mines a row (documented); Advance.next (the advisory outlook) "
             "is not modelled beyond 'None after Complete/Replan/Reevaluate/Rebuild'",
-            "the store's satisfiability oracle and mined_height are the environment (scripted); the SQLite oracle's "
-            "own answers are not judged here",
+            "in the drive-call model the store's satisfiability oracle and mined_height are the environment (scripted); the "
+            "SQLite oracle's own answers are judged by the store trace (part 3) against the harness chain",
+            "store trace: a mined migration transaction is a fabricated compact transaction carrying the row's transaction "
+            "id, spending the row's input notes and paying the migrating account (so the wallet keeps a row for it); stored "
+            "PCZTs are real PCZTs carrying only an Orchard anchor; the anchor judgment is held to soundness (it may conclude "
+            "only what the chain confirms), not to completeness; for these the broadcast seam is driven on its refusals only "
+            "(not proved / unknown row / bytes that do not extract) -- its success path is driven by the histories of a real "
+            "migration (one 0.0152 ZEC note: one preparation, one transfer; planned, committed and proved by the engine over "
+            "the wallet adapter on an 8-block anchor grid)",
+            "store trace: the chain is replaced only at or above the frontier the last scan inserted (a rewind below it is "
+            "the open C06 finding about stale frontiers, not this property's subject)",
         ])
 
 
@@ -208,6 +337,16 @@ def replay(ctx, path):
     bindir = lib.cargo_build("h_wallet", ["c18_replay"])
     with open(path) as f:
         rep = json.load(f)
+    if rep.get("kind") == "store_trace":
+        bindir = lib.cargo_build("h_wallet", ["c18_store_driver"])
+        d = lib.stage_specs(ctx, AREA)
+        path = ctx.path("store_trace.ndjson")
+        store_trace(ctx, bindir, path, rep["histories"], rep["events"], rep["seed"], rep.get("real", 0))
+        ok, n = store_verdict(ctx, d, path, {"property": "C18", "kind": "store_trace", "seed": rep["seed"],
+                                             "histories": rep["histories"], "events": rep["events"], "real": rep.get("real", 0)})
+        if ok:
+            lib.log("replay: the store trace is now accepted (%d lines)" % n)
+        return
     if rep.get("kind") == "arb":
         ep = ctx.path("empty.ndjson")
         open(ep, "w").close()
@@ -228,6 +367,69 @@ def replay(ctx, path):
     judge(ctx, res, "replay")
     if not res["mismatches"]:
         lib.log("replay: edge now agrees with the specification")
+
+
+def store_selftest(ctx, bindir, d):
+    """Binding demonstration (V): corrupt one logged field of a fresh store trace -- a mined height, a status, an
+    oracle answer, the settled height of a rewind -- or drop one event: TLC must reject at that line."""
+    path = ctx.path("store_self.ndjson")
+    store_trace(ctx, bindir, path, 4, 70, ctx.seed)
+    ok, n, _, _ = lib.tlc_validate(ctx, d, "Trace_WalletStore", "Trace_WalletStore.cfg", path, env_extra={"EXPLAIN": "0"})
+    if not ok:
+        raise lib.ToolError("selftest: the unperturbed store trace is rejected at %d" % n)
+    recs = [json.loads(l) for l in open(path)]
+
+    def rows(e):
+        for a in e["post"]["acct"]:
+            for r in a["recs"]:
+                for t in r["tx"]:
+                    yield r, t
+
+    def first(pred, start=20):
+        for k in range(start, len(recs)):
+            if pred(recs[k]):
+                return k
+        raise lib.ToolError("selftest: no suitable store event in the sample")
+
+    cases = []
+    k = first(lambda e: e["a"] == "rewind" and e["res"] == "ok" and any(t["st"] == "M" for _, t in rows(e)))
+    e = json.loads(json.dumps(recs[k]))
+    next(t for _, t in rows(e) if t["st"] == "M")["mh"] += 1
+    cases.append(("mined height after a rewind", k, e))
+    k = first(lambda e: e["a"] == "rewind" and e["res"] == "ok" and any(t["st"] == "B" for _, t in rows(e)))
+    e = json.loads(json.dumps(recs[k]))
+    t = next(t for _, t in rows(e) if t["st"] == "B")
+    t["st"], t["mh"] = "M", e["to"] + 1
+    cases.append(("a row left mined above the settled height", k, e))
+    k = first(lambda e: e["a"] in ("persist", "cancel") and any(r["status"] == "cancelled" for r, _ in rows(e)))
+    e = json.loads(json.dumps(recs[k]))
+    next(r for r, _ in rows(e) if r["status"] == "cancelled")["status"] = "in_progress"
+    cases.append(("status loaded back", k, e))
+    k = first(lambda e: e["a"] == "oracle" and any(q["mh"] >= 0 for q in e["q"]))
+    e = json.loads(json.dumps(recs[k]))
+    next(q for q in e["q"] if q["mh"] >= 0)["mh"] = -1
+    cases.append(("oracle: mined height withheld", k, e))
+    k = first(lambda e: e["a"] == "oracle" and any(q["k"] == "sat" for q in e["q"]))
+    e = json.loads(json.dumps(recs[k]))
+    next(q for q in e["q"] if q["k"] == "sat")["k"] = "spent"
+    cases.append(("oracle: satisfiability answer", k, e))
+    k = first(lambda e: e["a"] in ("persist", "cancel") and any(a["locked"] for a in e["post"]["acct"]))
+    e = json.loads(json.dumps(recs[k]))
+    next(a for a in e["post"]["acct"] if a["locked"])["locked"].pop()
+    cases.append(("reservation released early", k, e))
+    for name, k, e in cases + [("dropped event", first(lambda e: e["a"] == "persist"), None)]:
+        pp = ctx.path("store_perturbed.ndjson")
+        with open(pp, "w") as f:
+            for j, r in enumerate(recs):
+                if j == k:
+                    if e is None:
+                        continue
+                    r = e
+                f.write(json.dumps(r) + "\n")
+        ok, n, _, _ = lib.tlc_validate(ctx, d, "Trace_WalletStore", "Trace_WalletStore.cfg", pp, env_extra={"EXPLAIN": "0"})
+        if ok or n != k + 1:
+            raise lib.ToolError("selftest: store trace with %s at line %d: %s" % (name, k + 1, "accepted" if ok else "rejected at %d" % n))
+        lib.log("selftest ok: store trace with %s rejected at line %d" % (name, n))
 
 
 def selftest(ctx):
@@ -275,6 +477,7 @@ def selftest(ctx):
     e = one(lambda e: e["ev"]["op"] == "advance" and e["ret"]["dirty"])
     e["ret"]["dirty"] = False
     cases.append(("persist-before-surface flag", e))
+    store_selftest(ctx, lib.cargo_build("h_wallet", ["c18_store_driver"]), d)
     for name, e in cases:
         ep = ctx.path("perturbed.ndjson")
         with open(ep, "w") as f:
